@@ -116,6 +116,14 @@ structure StrOps (ν : Type) where
   toInt : ν → Option Int
   lit : String → ν
 
+/-- Every *other* text a column carries besides its name and aliases -- its identity, `str(column)`, `repr(column)`, its
+type, description, origin … -- read as a name (`T.attr "identity" c`), as a parameter (the way `StrOps` is one).  The
+translated `find_column` / `column` / `pop_column` take one and `C17.generated_*_eq_model` hold **for every** `ColText`:
+a name is a name or an alias and nothing else; a source that starts resolving a key through anything else a column
+carries (C17-w6s3: "failing that, by identity") makes the translation depend on this and the equality stops checking. -/
+structure ColText (ι ν : Type) where
+  attr : String → Col ι ν → ν
+
 /-- What one operation returns. -/
 inductive Out (ι ν : Type) where
   | col (c : Option (Col ι ν))      -- a lookup: the column or `None`
@@ -239,6 +247,149 @@ def opsOn (q : Nat) : List (POp ν) → List (Op ν)
 def outsOn (q : Nat) : List (POp ν) → List (POut ι ν) → List (Out ι ν)
   | .on r _ :: rest, .out o :: os => if r = q then o :: outsOn q rest os else outsOn q rest os
   | _ :: rest, _ :: os => outsOn q rest os
+  | _, _ => []
+
+/-! ## Iterators: an iteration in progress, interleaved with everything else (`__iter__`, schema.py:560-562)
+
+`for name in schema: … schema.pop_column(name) …` — the iterator is obtained once, advanced step by step, and between
+two steps anything may happen to the schema it came from.  What the iterator then yields depends on *how `__iter__`
+builds it*, which is read from the source on every run (`Gen.SchemaFns.iter_src`): an iterator over a list of names
+built when `__iter__` is called (`iter([col.name for col in self.columns])`: a snapshot nobody else can reach), or a
+generator that walks the live `self.columns` list and reads the next column only when asked for it. -/
+
+/-- What `RelationSchema.__iter__` hands out, as the source builds it. -/
+inductive IterSrc (ι ν : Type) where
+  /-- `iter(<a list built now>)`: the names are fixed when `__iter__` returns -/
+  | eager (names : List ν)
+  /-- `(<item col> for col in self.columns)`, `map(<item>, self.columns)`, `for col in self.columns: yield <item col>`:
+  a walk over the schema's own column list, one position at a time -/
+  | walk (item : Col ι ν → ν)
+
+/-- The model's `__iter__`: an iterator over the list of the names the schema has *when it is called*. -/
+def iterSrc (s : Schema ι ν) : IterSrc ι ν := .eager (columnNames s.columns)
+
+/-- An iterator some steps into its life. `live r pos item` is CPython's list iterator under a generator: it holds the
+register's list object and an index; each `next` looks at `columns[pos]` *as the list is then*; once it has run off
+the end it is finished for good. -/
+inductive IterSt (ι ν : Type) where
+  | snap (rest : List ν)
+  | live (r pos : Nat) (item : Col ι ν → ν)
+  | done
+
+/-- What an iterator is asked. -/
+inductive ItOp where
+  | next    -- `next(it)`
+  | drain   -- `list(it)`: everything that is left
+  deriving DecidableEq, Repr
+
+/-- What it answers. -/
+inductive ItOut (ν : Type) where
+  | item (x : ν)
+  | stop                 -- `StopIteration`
+  | rest (l : List ν)
+  deriving DecidableEq, Repr
+
+/-- One question to an iterator, the registers being what they are now. -/
+def IterSt.ask (regs : List (Schema ι ν)) : IterSt ι ν → ItOp → IterSt ι ν × ItOut ν
+  | .snap [], .next => (.snap [], .stop)
+  | .snap (x :: xs), .next => (.snap xs, .item x)
+  | .snap xs, .drain => (.snap [], .rest xs)
+  | .live r pos item, .next =>
+    match (regs[r]?.map (·.columns)).getD [] |>.drop pos with
+    | [] => (.done, .stop)
+    | c :: _ => (.live r (pos + 1) item, .item (item c))
+  | .live r pos item, .drain => (.done, .rest ((((regs[r]?.map (·.columns)).getD []).drop pos).map item))
+  | .done, .next => (.done, .stop)
+  | .done, .drain => (.done, .rest [])
+
+/-- Programs with iterators: everything `POp` has, plus `mk r` (`iter(regs[r])`, the new iterator gets the next free
+number) and a question to iterator `k`. -/
+inductive IOp (ν : Type) where
+  | base (op : POp ν)
+  | mk (r : Nat)
+  | ask (k : Nat) (q : ItOp)
+  deriving DecidableEq, Repr
+
+inductive IOut (ι ν : Type) where
+  | base (o : POut ι ν)
+  | made (k : Nat)
+  | it (o : ItOut ν)
+  deriving DecidableEq, Repr
+
+structure ISt (ι ν : Type) where
+  regs : List (Schema ι ν)
+  iters : List (IterSt ι ν)
+
+/-- `iter(s)` under a given `__iter__`. -/
+def IterSrc.start (r : Nat) : IterSrc ι ν → IterSt ι ν
+  | .eager names => .snap names
+  | .walk item => .live r 0 item
+
+def istep (src : Schema ι ν → IterSrc ι ν) (lower : ν → ν) (st : ISt ι ν) : IOp ν → Option (ISt ι ν × IOut ι ν)
+  | .base op =>
+    match pstep lower st.regs op with
+    | some (regs', o) => some ({ st with regs := regs' }, .base o)
+    | none => none
+  | .mk r =>
+    match st.regs[r]? with
+    | some s => some ({ st with iters := st.iters ++ [(src s).start r] }, .made st.iters.length)
+    | none => none
+  | .ask k q =>
+    match st.iters[k]? with
+    | some it => some ({ st with iters := st.iters.set k (it.ask st.regs q).1 }, .it (it.ask st.regs q).2)
+    | none => none
+
+def irun (src : Schema ι ν → IterSrc ι ν) (lower : ν → ν) (st : ISt ι ν) : List (IOp ν) → Option (ISt ι ν × List (IOut ι ν))
+  | [] => some (st, [])
+  | op :: ops =>
+    match istep src lower st op with
+    | none => none
+    | some (st1, o) =>
+      match irun src lower st1 ops with
+      | none => none
+      | some (st2, os) => some (st2, o :: os)
+
+/-! ### Specification vocabulary for iterators -/
+
+/-- An iterator over a list of its own, with nothing else in the world. -/
+def listIterStep (l : List ν) : ItOp → List ν × ItOut ν
+  | .next => match l with
+    | [] => ([], .stop)
+    | x :: xs => (xs, .item x)
+  | .drain => ([], .rest l)
+
+def listIterRun (l : List ν) : List ItOp → List ν × List (ItOut ν)
+  | [] => (l, [])
+  | q :: qs => ((listIterRun (listIterStep l q).1 qs).1, (listIterStep l q).2 :: (listIterRun (listIterStep l q).1 qs).2)
+
+/-- Everything a sequence of answers yielded, in order. -/
+def yielded : List (ItOut ν) → List ν
+  | [] => []
+  | .item x :: os => x :: yielded os
+  | .rest l :: os => l ++ yielded os
+  | .stop :: os => yielded os
+
+/-- The questions a program puts to iterator `k`. -/
+def asksOf (k : Nat) : List (IOp ν) → List ItOp
+  | [] => []
+  | .ask j q :: rest => if j = k then q :: asksOf k rest else asksOf k rest
+  | _ :: rest => asksOf k rest
+
+/-- The answers iterator `k` gave. -/
+def answersOf (k : Nat) : List (IOp ν) → List (IOut ι ν) → List (ItOut ν)
+  | .ask j _ :: rest, .it o :: os => if j = k then o :: answersOf k rest os else answersOf k rest os
+  | _ :: rest, _ :: os => answersOf k rest os
+  | _, _ => []
+
+/-- The register operations of a program with iterators, and their outputs. -/
+def baseOps : List (IOp ν) → List (POp ν)
+  | [] => []
+  | .base op :: rest => op :: baseOps rest
+  | _ :: rest => baseOps rest
+
+def baseOuts : List (IOp ν) → List (IOut ι ν) → List (POut ι ν)
+  | .base _ :: rest, .base o :: os => o :: baseOuts rest os
+  | _ :: rest, _ :: os => baseOuts rest os
   | _, _ => []
 
 end SchemaOps
